@@ -155,6 +155,7 @@ class InfoLearner:
     def params(self): return {"family": "Info"}
     def score(self, context, actions, action):
         from coba.context import CobaContext
+        if actions is None: raise ValueError("probe")      # SafeLearner's has_score probe: answer without touching learning_info
         CobaContext.learning_info["n_scored"] = self.n
         return 1 / len(actions)
     def predict(self, context, actions):
